@@ -47,6 +47,9 @@ def single_shots(trace, rng, per_read=1):
         chosen = errs if mutating else rng.sample(errs, min(per_read, len(errs)))
         for e in chosen:
             out.append(({'kind': 'shot', 'pid': 1, 'op': ev[2], 'path': ev[3], 'k': k, 'errno': e}, (ev[2], E.errorcode[e], ev[3])))
+        if ev[2] == 'write':
+            # a short write: no error, write(2) returns a smaller count than it was given
+            out.append(({'kind': 'shot', 'pid': 1, 'op': 'write', 'path': ev[3], 'k': k, 'errno': 0, 'short': True}, ('write', 'SHORT', ev[3])))
     return out
 
 
